@@ -62,6 +62,12 @@ func TestC17(t *testing.T) {
 		ops := []c17Op{}
 		for i := 0; i < nops; i++ {
 			p := pool[gen.Uniform(0, np-1).Draw(t, "op-path")]
+			if gen.Uniform(0, 14).Draw(t, "exists-on-directory") == 0 {
+				// exists() is about paths, not only files: the pre-created directory exists
+				ops = append(ops, c17Op{kind: "exists-dir"})
+				history = append(history, "exists:directory")
+				continue
+			}
 			kinds := []string{"write", "write", "append", "append", "overwrite-false", "exists"}
 			if _, ok := model[c17Paths[p].p]; ok {
 				kinds = append(kinds, "read", "read")
@@ -119,6 +125,11 @@ func TestC17(t *testing.T) {
 		expOut := ""
 		cur := map[string][]string{}
 		for _, op := range ops {
+			if op.kind == "exists-dir" {
+				body.WriteString("print(\"exists\", exists(\"sub\"), exists(\"nosuchdir\"))\n")
+				expOut += "exists 1 0\n"
+				continue
+			}
 			path := c17Paths[op.path].p
 			pe := valueRef("p", op.path, path)
 			switch op.kind {
@@ -168,6 +179,10 @@ func TestC17(t *testing.T) {
 		seq := map[string]string{}
 		aoa := false
 		for _, op := range ops {
+			if op.kind == "exists-dir" {
+				r.Class("op:exists-on-directory")
+				continue
+			}
 			if c17Paths[op.path].class != "plain" || (c17Contents[op.content].class != "neutral" && op.kind != "read" && op.kind != "exists") {
 				nonPlain = true
 			}
@@ -200,6 +215,10 @@ func TestC17(t *testing.T) {
 		sig := rep.Sig{"kind": out.Kind, "function": strconv.FormatBool(inFunc)}
 		pc, cc := map[string]bool{}, map[string]bool{}
 		for _, op := range ops {
+			if op.kind == "exists-dir" {
+				pc["directory"] = true
+				continue
+			}
 			pc[c17Paths[op.path].class] = true
 			if op.kind != "read" && op.kind != "exists" {
 				cc[c17Contents[op.content].class] = true
